@@ -11,9 +11,11 @@ def run(ctx):
     r = ctx.model_check("Resolver/CookieModel.tla", "CookieModel.cfg", workers=8, timeout=900)
     if r.violation:
         raise vlib.MachineryError("CookieModel.tla violates %s" % r.violation)
+    # requests left unanswered across a client-cookie change, answered late
+    late = {"module": "Gen_C17.tla", "cfg": "Gen_C17_late.cfg", "name": "late"}
     if ctx.quick:
-        gens = [{"module": "Gen_C17.tla", "cfg": "Gen_C17_quick.cfg", "name": "bfs"}]
+        gens = [{"module": "Gen_C17.tla", "cfg": "Gen_C17_quick.cfg", "name": "bfs"}, late]
     else:
         gens = [{"module": "Gen_C17.tla", "cfg": "Gen_C17_thorough.cfg", "name": "bfs", "timeout": 1500},
-                {"module": "Gen_C17.tla", "cfg": "Gen_C17_sim.cfg", "name": "sim", "simulate": 3000, "depth": 24}]
+                {"module": "Gen_C17.tla", "cfg": "Gen_C17_sim.cfg", "name": "sim", "simulate": 3000, "depth": 24}, late]
     simlib.engine_check(ctx, gens, FACETS, labels=("c17.",), selftests=mutators.COOKIE)
